@@ -14,8 +14,10 @@ mod entropy;
 mod gen_sched;
 mod prng;
 mod props_chain;
+mod props_fault;
 mod props_sched;
 mod sched;
+mod simmath;
 mod storesim;
 mod swarm;
 
